@@ -9,6 +9,8 @@
 //!            "scripts":{"logs":["s500","dropa",..],..},                per-endpoint decisions
 //!            "refuse":{"logs":n}                                      endpoint refuses connections
 //!                                                                     until n connects failed
+//!            "resource":bool,"headers":bool,"entry":"new"|"builder"   configuration forms (OtlpBuilder::resource,
+//!                                                                     OtlpTransportBuilder::headers, Otlp::builder())
 //!            "pad":"rep"|"rnd"                                        attribute content: repeated / pseudo-random
 //!            "short_flush_ms":n                                       before the final flush, one with this timeout
 //!            "flush_after":[k..]                                      also flush after the k-th event
@@ -33,6 +35,7 @@ fn dec_class(d: &str, ack: bool) -> &'static str {
         "stall" => "stall",
         "sth" | "stm" => "stallbody",
         "stt" => "stalltrail",
+        "rsb" => "rstbody",
         "dropb" => "dropb",
         "dropa" => "dropa",
         "after_stall" => "after_stall",
@@ -96,10 +99,16 @@ fn run_scenario(coll: &Collector, s: &Value, flush_timeout: Duration) -> Outcome
     let sc = coll.scenario(proto, scripts, refusing);
     let ports: Vec<u16> = SIGNALS.iter().map(|g| sc.ep(*g).addr.port()).collect();
     let timeouts0 = client::client_timeouts(&ports);
-    let otlp = client::build(&sc, proto, gzip, &signals);
+    let forms = client::Forms {
+        resource: s["resource"].as_bool().unwrap_or(false),
+        headers: s["headers"].as_bool().unwrap_or(false),
+        entry_builder: s["entry"].as_str() == Some("builder"),
+    };
+    let otlp = client::build_with(&sc, proto, gzip, &signals, forms);
     let src = otlp.metric_source();
     emit_otlp::verif::set_max_request_size_bytes(if unit_cfg == 0 { None } else { Some(limit * unit) });
-    let mut trace = vec![json!({"ev": "Reset", "sc": scn, "http1": !proto.is_grpc()})];
+    let mut trace = vec![json!({"ev": "Reset", "sc": scn, "http1": !proto.is_grpc(),
+        "res": if forms.resource { client::RES_VALUE } else { "" }, "hdr": if forms.headers { client::HDR_VALUES } else { "" }})];
     // payload content: "rep" = one repeated character (compresses to almost nothing),
     // "rnd" = seeded pseudo-random base64-like text (hardly compressible)
     let rnd_pad = s["pad"].as_str() == Some("rnd");
@@ -177,7 +186,7 @@ fn run_scenario(coll: &Collector, s: &Value, flush_timeout: Duration) -> Outcome
                 trace.push(json!({
                     "ev": "Req", "ep": e["ep"], "sig": e["sig"].as_str().unwrap_or("none"), "conn": e["conn"],
                     "known": known, "ids": if known { e["ids"].clone() } else { json!([]) },
-                    "dec": dec, "ack": ack, "bad": !e["err"].is_null(), "raw": e["dec"], "err": e["err"].as_str().unwrap_or(""), "t": e["t"], "gz": e["gzip"], "bytes": e["bytes"],
+                    "dec": dec, "ack": ack, "bad": !e["err"].is_null(), "raw": e["dec"], "err": e["err"].as_str().unwrap_or(""), "t": e["t"], "gz": e["gzip"], "bytes": e["bytes"], "res": e["res"], "hdr": e["hdr"],
                 }));
             }
             "Flush" => {
